@@ -24,4 +24,4 @@ for C in "$P" "$@"; do
   echo "seed=$P check=$C rc=$RC violations=$(grep -c '^VIOLATION' "$LOG") :: $(tail -1 "$LOG")"
   grep -m3 "signature=" "$LOG" | sed 's/^/    /'
 done
-git -C /repo worktree remove --force "$WT"; rm -rf "/tmp/rvtarget-evalwt-$P"
+git -C /repo worktree remove --force "$WT"; rm -rf "/tmp/rvtarget-evalwt-$P" "/tmp/rvtarget-evalwt-$P-bins"
